@@ -88,9 +88,10 @@ def judge(case, r):
     base = {"lang": lang, "base": case.get("base", "")}
     if r.timeout:
         # a hang is confirmed with a 60 s limit (inputs are a few hundred bytes; a normal run takes milliseconds); once this worker
-        # has confirmed one, later candidates get 30 s - a tree that hangs on a whole family of inputs must not eat the deadline
+        # has confirmed one, later candidates get 30 s (quick tier: 30 s / 15 s) - a tree that hangs on a whole family of inputs
+        # must not eat the deadline
         r2 = run.unc(case["src"], case["cfg"] or None, lang, args=case.get("args", ()), flavour=case.get("flavour", "asan"),
-                     quiet=case.get("quiet", False), env=case.get("env"), timeout=30.0 if _hangs_confirmed[0] else 60.0)
+                     quiet=case.get("quiet", False), env=case.get("env"), timeout=(30.0 if _hangs_confirmed[0] else 60.0) / (2 if case.get("meta", {}).get("quick") else 1))
         if r2.timeout:
             _hangs_confirmed[0] += 1
             out.append(dict(base, clause="hang", where=hang_where(case)))
@@ -251,7 +252,7 @@ def check(ctx):
         counts[universe] = counts.get(universe, 0) + 1
         cfg = configs.text(settings) if settings else None
         cases.append(bee.Case("%s/%s" % (cid, bname), src, lang, cfg, judge, flavour=flavour, quiet=quiet,
-                              env=env if flavour == "asan" else None, meta={"base": bname, "universe": universe}))
+                              env=env if flavour == "asan" else None, meta={"base": bname, "universe": universe, "quick": quick}))
 
     skels = skel.all_skeletons()
     units = [(n, "C", s) for n, s in cgen.decl_units("C")] + [(n, "CPP", s) for n, s in cgen.decl_units("CPP") if n in dict(cgen.DECLS_CPP)] \
@@ -377,7 +378,7 @@ def check(ctx):
             print("HARNESS-NONDETERMINISM"); raise SystemExit(2)
         agg = bee.drive(ctx, groups, pool)
         ctx.log("singles done: runs=%d outcomes=%s" % (agg["runs"], agg["outcomes"]))
-        agg2 = bee.drive_cases(ctx, cases, pool, chunksize=4, flavour="asan")
+        agg2 = bee.drive_cases(ctx, cases, pool, chunksize=1, flavour="asan")
     outcomes = dict(agg2["outcomes"])
     for k, v in agg["outcomes"].items():
         outcomes[k] = outcomes.get(k, 0) + v
